@@ -77,6 +77,12 @@ Clauses(r) ==
       [] r.k = "sm"     -> SmClauses(r)
       [] r.k = "qr"     -> << <<"qr", QrOK(r)>> >>
       [] r.k = "qrview" -> << <<"qr-solve-on-view", QrViewOK(r)>> >>
+      \* call histories on one object: every call equals the same call on a fresh object (bitwise) and the definition
+      [] r.k = "qrreuse"  -> << <<"qr-reused-object=fresh-object", r.fresh>>, <<"qr-reused-object=definition", QrReuseOK(r)>> >>
+      [] r.k = "skyreuse" -> << <<"skyline-repeated-apply=fresh-object", r.fresh>>,
+                                <<"skyline-repeated-apply=definition", r.finite /\ r.zero_in_zero_out /\ r.err <= Tol>> >>
+      [] r.k = "invreuse" -> << <<"inverse-reused-buffers=fresh-buffers", r.fresh>>,
+                                <<"inverse-reused-buffers=definition", r.finite /\ r.eres <= Tol>> >>
       [] r.k = "dsolve" -> << <<"direct-solver", r.exc = 0 /\ r.err <= Tol>> >>
       [] OTHER          -> << <<"unknown-record", FALSE>> >>
 
